@@ -20,8 +20,11 @@ Section Model.
   Notation V3 := (V3 O).
 
   Definition eps : T := cst epsilon_num epsilon_den.
-  Definition mc_tol : T := cst mcDegenerateTol_num mcDegenerateTol_den.
-  Definition ms_tol : T := cst msDegenerateTol_num msDegenerateTol_den.
+  (* the literal 0 of `t.Degenerate(0)` / `l.Degenerate(0)`: tied to the call sites by
+     TRANSL_render_mcToTriangles / TRANSL_render_msToLines (Render/GenEqRender.v) and, as data, by
+     mcDegenerateTol_f / msDegenerateTol_f of Generated/MarchTables.v (Render/MarchCorr.v) *)
+  Definition mc_tol : T := o0 O.
+  Definition ms_tol : T := o0 O.
 
   (* the interpolation parameter and the two snapping tests, shared by the 2D and 3D code *)
   Inductive pick := PickFirst | PickSecond | PickT (t : T).
@@ -195,7 +198,7 @@ Qed.
 
 (* ---- Degenerate(0) at the reals is "two vertices are the same point" *)
 Lemma tol_zero : @mc_tol ROps = 0 /\ @ms_tol ROps = 0.
-Proof. unfold mc_tol, ms_tol, cst. rsimp. split; vm_compute mcDegenerateTol_num; vm_compute msDegenerateTol_num; lra. Qed.
+Proof. unfold mc_tol, ms_tol. rsimp. split; reflexivity. Qed.
 
 Definition v3_eqbR (a b : V3 ROps) : bool := Reqb (wx a) (wx b) && Reqb (wy a) (wy b) && Reqb (wz a) (wz b).
 Definition v2_eqbR (a b : V2 ROps) : bool := Reqb (vx a) (vx b) && Reqb (vy a) (vy b).
